@@ -19,6 +19,9 @@ for i in (1, 2):
     mc = re.search(r"Copy into:\s*([A-Za-z0-9_/]+?)/?\s", head)
     if mc:
         pkg = mc.group(1).rstrip("/")
+    mt = re.search(r"Copy (?:in)?to:\s*`?([A-Za-z0-9_/]+)/[A-Za-z0-9_]+\.go", head)
+    if mt:
+        pkg = mt.group(1)
     md = re.search(r"package directory:?\s+`?([A-Za-z0-9_/]+[A-Za-z0-9_])", head)
     if md:
         pkg = md.group(1)
